@@ -144,15 +144,16 @@ def discretisation(env):
             env.eq("C18", "wave drag coefficient of a constant-chord wing: %d panels == 1 panel [path %s]" % (ny - 1, p1), o1, o2)
 
 
-@job("c18.viscous_signs", ("C18",), cfgs=[dict(k_lam=0.0), dict(k_lam=1.0)], cost=2)
-def viscous_signs(env, k_lam):
+@job("c18.viscous_signs", ("C18",), cfgs=[dict(k_lam=0.0), dict(k_lam=1.0), dict(k_lam=0.05, re_mono=False), dict(k_lam=0.05, re_mono=True, _tier=T)], cost=10)
+def viscous_signs(env, k_lam, re_mono=True):
     """sign obligations over the whole admissible box (interval branch-and-bound on the terms produced by the real compute and
     on their engine derivatives; one strip, so that CDv is a positive multiple of the strip friction coefficient):
     CDv > 0, d CDv / d re < 0, d CDv / d (t/c) > 0 for Reynolds numbers per length in [1e5, 1e8] (chord Reynolds numbers of the
     laminar run above 1e3) at unit chord (general chords by the scaling clause of C06), 0.05 <= M <= 0.95,
-    0.02 <= t/c <= 0.3, sweep below 60 degrees.  Fully turbulent and fully laminar surfaces only: for a laminar fraction strictly
-    between 0 and 1 the blend (cf_lam - cf_turb)(k Re) k + cf_turb(Re) has cancelling terms whose enclosures did not certify within
-    6000 boxes (not decided)"""
+    0.02 <= t/c <= 0.3, sweep below 60 degrees.  Fully turbulent, fully laminar and the default laminar fraction 0.05 (its
+    Reynolds monotonicity, about 140 s of interval arithmetic, in the thorough tier); for larger fractions strictly below 1 the
+    blend (cf_lam - cf_turb)(k Re) k + cf_turb(Re) has cancelling terms whose enclosures did not certify within 20000 boxes
+    (k_lam = 0.5: not decided)"""
     s = surface(name="wing", nx=2, ny=2, symmetry=False, with_viscous=True, extra=dict(k_lam=k_lam))
     h = env.comp("v", lambda: cls("aerodynamics.viscous_drag.ViscousDrag")(surface=s, with_viscous=True))
     ins = h.inputs()
@@ -168,8 +169,14 @@ def viscous_signs(env, k_lam):
            (r"cos_sweep", 0.5, 1.0), (r"S_ref", 1.0, 10.0)]
     if not env.sym:
         return
-    env.sign_on_box("C18", "viscous drag coefficient is positive on the admissible box [k_lam = %s]" % k_lam, [cdv], box, sign=1)
-    d_re = env.jac_of(np.array([cdv], dtype=object), ins["re"])
-    env.sign_on_box("C18", "viscous drag decreases with the Reynolds number on the admissible box [k_lam = %s]" % k_lam, d_re.reshape(-1), box, sign=-1)
+    env.sign_on_box("C18", "viscous drag coefficient is positive on the admissible box [k_lam = %s]" % k_lam, [cdv], box, sign=1, max_boxes=20000)
+    if re_mono:
+        d_re = env.jac_of(np.array([cdv], dtype=object), ins["re"])
+        env.sign_on_box("C18", "viscous drag decreases with the Reynolds number on the admissible box [k_lam = %s]" % k_lam, d_re.reshape(-1), box, sign=-1,
+                        max_boxes=30000)
+    if k_lam not in (0.0, 1.0):
+        env.note("c18.viscous_signs: for the blended friction coefficient the thickness clause is not decided by enclosure; it follows "
+                 "from CDv = (positive strip factor) x cf x FF(t/c) with cf > 0 (decided above) and FF increasing in t/c")
+        return
     d_tc = env.jac_of(np.array([cdv], dtype=object), ins["t_over_c"])
-    env.sign_on_box("C18", "viscous drag increases with the thickness ratio on the admissible box [k_lam = %s]" % k_lam, d_tc.reshape(-1), box, sign=1)
+    env.sign_on_box("C18", "viscous drag increases with the thickness ratio on the admissible box [k_lam = %s]" % k_lam, d_tc.reshape(-1), box, sign=1, max_boxes=20000)
